@@ -15,6 +15,7 @@ import os
 import re
 import vlib
 import gen_mixlinear
+import gen_c14_synth
 
 LEVEL = "proof"
 MANIFEST = dict(
@@ -67,15 +68,16 @@ def modules(ck, n, maxsize):
 
 
 def run_shard(args):
-    exe, mode, seed, nframes, mods = args
-    rc, out, err = vlib.run_exe(exe, [mode, str(seed), str(nframes)] + mods, timeout=1500)
+    exe, mode, seed, nframes, mods = args[:5]
+    env = args[5] if len(args) > 5 else None
+    rc, out, err = vlib.run_exe(exe, [mode, str(seed), str(nframes)] + mods, timeout=1500, env=env)
     return rc, out.decode("latin-1"), err
 
 
-def shards(exe, mode, seed, nframes, mods, n=None):
+def shards(exe, mode, seed, nframes, mods, n=None, env=None):
     n = n or vlib.NCPU
     buckets = [mods[i::n] for i in range(n)]
-    return [(exe, mode, seed, nframes, b) for b in buckets if b]
+    return [(exe, mode, seed, nframes, b, env) for b in buckets if b]
 
 
 def kv(line):
@@ -89,8 +91,8 @@ def abort_violation(ck, exe, sh, rc, err):
                  "c14 harness (%s) aborted rc=%d: %s" % (sh[1], rc, sig))
 
 
-def replay_obj(mode, seed, nframes, module, line):
-    return {"mode": mode, "seed": seed, "nframes": nframes, "module": module, "harness_line": line,
+def replay_obj(mode, seed, nframes, module, line, env=None):
+    return {"mode": mode, "seed": seed, "nframes": nframes, "module": module, "harness_line": line, "env": env or {},
             "how": "python3 tools/check.py C14 --replay <this file>  (runs: c14_mixlinear %s %d %d %s)" % (mode, seed, nframes, module)}
 
 
@@ -151,35 +153,46 @@ def run(ck):
     def bump(k, n=1):
         stats[k] = stats.get(k, 0) + n
 
+    def tie_like(mode, nfr, mods, prefix, env=None):
+        shs = shards(exe, mode, seed, nfr, mods, env=env)
+        for sh, (rc, out, err) in zip(shs, vlib.pmap(run_shard, shs)):
+            if rc != 0:
+                abort_violation(ck, exe, sh, rc, err)
+                continue
+            for line in out.splitlines():
+                if line.startswith("tiestat "):
+                    d = kv(line)
+                    for k in ("ticks", "solos", "multi", "kernel_calls", "ac_calls", "filter_calls", "paula_calls",
+                              "one_frame_calls", "fails"):
+                        bump(prefix + "_" + k, int(d[k]))
+                    bump(prefix + "_modules")
+                    # each tick is one exact accumulator comparison (full mix vs wrapping sum of the solo mixes)
+                    ck.count((mode, line.split()[1], seed, repr(env)), nontrivial=int(d["multi"]) > 0, n=int(d["ticks"]))
+                    ck.cov["traces_validated_against_impl"] += int(d["ticks"]) - min(int(d["fails"]), int(d["ticks"]))
+                elif line.startswith("skip "):
+                    bump("unloadable_modules")
+                elif line.startswith("tie_fail "):
+                    sig = line.split()[1]
+                    mod = module_of(line)
+                    path = next((m for m in sh[4] if os.path.basename(m) == mod), mod)
+                    bump("tie_fail_" + sig)
+                    if stats["tie_fail_" + sig] > 3:
+                        continue
+                    # the accumulator identity *is* the property at the level of one tick
+                    ck.violation(sig + ":" + mod, replay_obj(mode, seed, nfr, path, line, env),
+                                 "the mix of a tick is not the sum of its voices' solo mixes: " + line[:300])
+            model_compare(ck, mode, out, stats)
+
+    # synthetic modules (tiny loops, retriggers, hard pans): written from the seed
+    synth = gen_c14_synth.generate(os.path.join(vlib.OUT, "c14-synth"), seed, 3 if quick else 8)
+    ck.note("synthetic_modules", len(synth))
+
     # ---------------- accumulator-level tie + model cases ----------------
     nfr = 70 if quick else 260
     mods = modules(ck, 110 if quick else 100000, 700000 if quick else 8000000)
-    for sh, (rc, out, err) in zip(*(lambda s: (s, vlib.pmap(run_shard, s)))(shards(exe, "tie", seed, nfr, mods))):
-        if rc != 0:
-            abort_violation(ck, exe, sh, rc, err)
-            continue
-        for line in out.splitlines():
-            if line.startswith("tiestat "):
-                d = kv(line)
-                for k in ("ticks", "solos", "multi", "kernel_calls", "ac_calls", "filter_calls", "paula_calls", "fails"):
-                    bump("tie_" + k, int(d[k]))
-                bump("tie_modules")
-                # each tick with >= 1 solo is one exact accumulator comparison
-                ck.count(("tie", line.split()[1], seed), nontrivial=int(d["multi"]) > 0, n=int(d["ticks"]))
-                ck.cov["traces_validated_against_impl"] += int(d["ticks"]) - min(int(d["fails"]), int(d["ticks"]))
-            elif line.startswith("skip "):
-                bump("unloadable_modules")
-            elif line.startswith("tie_fail "):
-                sig = line.split()[1]
-                mod = module_of(line)
-                path = next((m for m in sh[4] if os.path.basename(m) == mod), mod)
-                bump("tie_fail_" + sig)
-                if stats["tie_fail_" + sig] > 3:
-                    continue
-                # the accumulator identity *is* the property at the level of one tick
-                ck.violation(sig + ":" + mod, replay_obj("tie", seed, nfr, path, line),
-                             "the mix of a tick is not the sum of its voices' solo mixes: " + line[:300])
-        model_compare(ck, "tie", out, stats)
+    tie_like("tie", nfr, mods, "tie")
+    for interp in (0, 1, 2):
+        tie_like("tie", 120 if quick else 400, synth, "synth_tie", env={"C14_INTERP": str(interp)})
 
     # ---------------- regression configuration: lowest rate + Paula kernels ----------------
     allfiles = vlib.corpus_files()
@@ -187,32 +200,12 @@ def run(ck):
     amiga = [f for f in allfiles if f not in lmods and os.path.getsize(f) < 400000 and
              re.search(r"\.mod$|/(NP|np|mod|MOD|P[0-9A-Za-z]+|pha|kris|unic|ksm|di|fc-m|ac1d|zen|tp[123]|xann|wn)[^/]*$", f)]
     ck.rng.shuffle(amiga)
-    lmods += amiga[:12 if quick else 200]
-    for sh, (rc, out, err) in zip(*(lambda s: (s, vlib.pmap(run_shard, s)))(shards(exe, "lowrate", seed, 300 if quick else 600, lmods))):
-        if rc != 0:
-            abort_violation(ck, exe, sh, rc, err)
-            continue
-        for line in out.splitlines():
-            if line.startswith("tiestat "):
-                d = kv(line)
-                bump("lowrate_modules")
-                bump("lowrate_ticks", int(d["ticks"]))
-                bump("lowrate_paula_calls", int(d["paula_calls"]))
-                ck.count(("lowrate", line.split()[1], seed), nontrivial=int(d["paula_calls"]) > 0, n=int(d["ticks"]))
-                ck.cov["traces_validated_against_impl"] += int(d["ticks"]) - min(int(d["fails"]), int(d["ticks"]))
-            elif line.startswith("tie_fail "):
-                sig = line.split()[1]
-                mod = module_of(line)
-                path = next((m for m in sh[4] if os.path.basename(m) == mod), mod)
-                bump("tie_fail_" + sig)
-                if stats["tie_fail_" + sig] <= 3:
-                    ck.violation(sig + ":" + mod, replay_obj("lowrate", seed, sh[3], path, line),
-                                 "the mix of a tick is not the sum of its voices' solo mixes: " + line[:300])
-        model_compare(ck, "lowrate", out, stats)
+    lmods += amiga[:12 if quick else 200] + [f for f in synth if f.endswith(".mod")]
+    tie_like("lowrate", 300 if quick else 600, lmods, "lowrate")
 
     # ---------------- twin contexts: player volume / pan tails ----------------
     nfr = 60 if quick else 200
-    tmods = modules(ck, 60 if quick else 100000, 500000 if quick else 8000000)
+    tmods = modules(ck, 60 if quick else 100000, 500000 if quick else 8000000) + synth
     for sh, (rc, out, err) in zip(*(lambda s: (s, vlib.pmap(run_shard, s)))(shards(exe, "twin", seed, nfr, tmods))):
         if rc != 0:
             abort_violation(ck, exe, sh, rc, err)
@@ -227,8 +220,8 @@ def run(ck):
         model_compare(ck, "twin", out, stats)
 
     # ---------------- direct oracles on whole renders ----------------
-    def oracle(mode, nfr, mods, statname, on_stat):
-        for sh, (rc, out, err) in zip(*(lambda s: (s, vlib.pmap(run_shard, s)))(shards(exe, mode, seed, nfr, mods))):
+    def oracle(mode, nfr, mods, statname, on_stat, env=None):
+        for sh, (rc, out, err) in zip(*(lambda s: (s, vlib.pmap(run_shard, s)))(shards(exe, mode, seed, nfr, mods, env=env))):
             if rc != 0:
                 abort_violation(ck, exe, sh, rc, err)
                 continue
@@ -240,7 +233,7 @@ def run(ck):
                     # at most 3 replay files per kind of failure; the rest is counted
                     if stats["oracle_fail_" + sig] <= 3:
                         ck.violation(sig if sig.endswith(":nna") else sig + ":" + os.path.basename(path),
-                                     replay_obj(mode, seed, nfr, path, line),
+                                     replay_obj(mode, seed, nfr, path, line, env),
                                      "C14 oracle (%s) failed on the real code: %s" % (mode, line[:400]))
                 elif line.startswith(statname + " "):
                     on_stat(line)
@@ -261,7 +254,7 @@ def run(ck):
         for k in ("d0", "d1", "d2", "d3"):
             bump("solosum_diff_" + k, int(d[k]))
         stats["solosum_worst_diff"] = max(stats.get("solosum_worst_diff", 0), int(d["worst"]) if d["voice_limit_reached"] == "0" else 0)
-        ck.count(("solosum", line.split()[1], seed), nontrivial=int(d["compared"]) > 0 and d["voice_limit_reached"] == "0")
+        ck.count(("solosum", line.split()[1], seed, d.get("rate"), d.get("interp")), nontrivial=int(d["compared"]) > 0 and d["voice_limit_reached"] == "0")
 
     def sep_stat(line):
         d = kv(line)
@@ -269,12 +262,17 @@ def run(ck):
         bump("sep_applicable", int(d["applicable"]))
         bump("sep_frames", int(d["frames"]) if d["applicable"] == "1" else 0)
         bump("sep_frames_L_ne_R", int(d["L_ne_R_frames"]) if d["applicable"] == "1" else 0)
-        ck.count(("sep", line.split()[1], seed), nontrivial=d["applicable"] == "1" and int(d["L_ne_R_frames"]) > 0)
+        ck.count(("sep", line.split()[1], seed, d.get("rate"), d.get("interp")), nontrivial=d["applicable"] == "1" and int(d["L_ne_R_frames"]) > 0)
 
     omods = modules(ck, 120 if quick else 100000, 600000 if quick else 8000000)
-    oracle("silence", 120 if quick else 600, omods, "silencestat", silence_stat)
-    oracle("solosum", 90 if quick else 400, omods[:70] if quick else omods, "solosumstat", solosum_stat)
-    oracle("sep", 100 if quick else 500, omods[:90] if quick else omods, "sepstat", sep_stat)
+    oracle("silence", 120 if quick else 600, synth + omods, "silencestat", silence_stat)
+    oracle("solosum", 90 if quick else 400, synth + (omods[:70] if quick else omods), "solosumstat", solosum_stat)
+    oracle("sep", 100 if quick else 500, synth + (omods[:90] if quick else omods), "sepstat", sep_stat)
+    # the same synthetic modules under each interpolator at a low and a high rate
+    for interp, rate in ((1, 8000), (2, 44100), (0, 4000)):
+        env = {"C14_INTERP": str(interp), "C14_RATE": str(rate)}
+        oracle("solosum", 150 if quick else 400, synth, "solosumstat", solosum_stat, env)
+        oracle("sep", 150 if quick else 400, synth, "sepstat", sep_stat, env)
 
     for k, v in sorted(stats.items()):
         ck.note(k, v)
@@ -302,7 +300,8 @@ def replay(ck, rp):
         for u in r:
             print("UNPROVED %s: %s" % (u.get("name"), u.get("detail", "")[:1500]))
         return 1
-    rc, out, err = vlib.run_exe(exe, [r["mode"], str(r["seed"]), str(r["nframes"]), r["module"]], timeout=1500)
+    rc, out, err = vlib.run_exe(exe, [r["mode"], str(r["seed"]), str(r["nframes"]), r["module"]], timeout=1500,
+                                env=r.get("env") or None)
     text = out.decode("latin-1")
     bad = [l for l in text.splitlines() if l.startswith("oracle_fail") or l.startswith("tie_fail")]
     for l in text.splitlines():
